@@ -153,7 +153,8 @@ pub fn stream_text(docs: &[String]) -> String {
     s
 }
 
-type Json = serde_json::Value;
+/// every event must be consumed and complex mapping keys accepted: the simulator's own untyped tree
+type Json = crate::types::Tree;
 
 struct Run {
     result: Result<(), String>, // Ok or breach / error name
@@ -694,6 +695,17 @@ impl G<'_> {
                     out.push_str(&format!("{pad}  - {v}\n"));
                 }
             }
+            8 => {
+                // a container as mapping key (complex key), optionally with a `<<` as its value
+                let key = if self.rng.chance(1, 2) {
+                    format!("[{}, {}]", self.word(), self.word())
+                } else {
+                    let kk = self.k();
+                    format!("{{{kk}: {}}}", self.word())
+                };
+                let val = if self.rng.chance(1, 3) { "<<".to_string() } else { self.flow_value(1) };
+                out.push_str(&format!("{pad}? {key}\n{pad}: {val}\n"));
+            }
             7 => {
                 // a value that is literally "<<" (not a merge key) or a quoted "<<" key
                 if self.rng.chance(1, 2) {
@@ -737,7 +749,7 @@ pub fn kind_doc(kind: usize, rng: &mut Rng) -> String {
         5 => "a: [[[x]]]\nb: {c: {d: 1, d: 2}}\nrest: [1, 2, 3]\n".to_string(),
         6 => "p: &q [1, 2]\nq: {r: {s: [*q, {t: 1, t: 2}]}}\n".to_string(),
         7 => "- [[[[1, 2, 3]]]]\n- &z zed\n- *z\n".to_string(),
-        8 => "k: &o {a: &i [x, y]}\nl: *o\nm: *i\n".to_string(),
+        8 => "k: &o {a: &i [x, y]}\nl: *o\nm: *i\n? [c1, c2]\n: <<\n? {ck: cv}\n: 1\nn:\n  ? [d]\n  : e\n  <<: *o\n  f: <<\n".to_string(),
         _ => {
             let n = rng.range(2, 7);
             gen_doc(rng, n)
